@@ -50,7 +50,9 @@ pub fn cases(ctx: &Ctx) -> Vec<Case> {
     let long_a = format!("long-directory-name-{}/another-long-directory-{}/yet-another-{}/file-with-a-long-name.dat", "a".repeat(28), "b".repeat(29), "c".repeat(26));
     let long_b = format!("{}/{}", "d".repeat(120), "e".repeat(200));
     let long_c = format!("unicode-é日本語-{}/ü{}", "日".repeat(30), "ß".repeat(40));
-    let names = ["a.txt", "empty", "with space.bin", "é日本語.dat", "sub/b.bin", "sub/deep/er/c", "sub/with space/d d", "z-last", "sub2/ü", "UPPER.TXT", long_a.as_str(), long_b.as_str(), long_c.as_str(), "sub/ninety-nine-bytes-path-padding-padding-padding-padding-padding-padding-padding-padding-pad"];
+    let names = ["a.txt", "empty", "with space.bin", "é日本語.dat", "sub/b.bin", "sub/deep/er/c", "sub/with space/d d", "z-last", "sub2/ü", "UPPER.TXT", long_a.as_str(), long_b.as_str(), long_c.as_str(), "sub/ninety-nine-bytes-path-padding-padding-padding-padding-padding-padding-padding-padding-pad",
+        // dots that are not parent-directory components, other names a path filter may trip on
+        "notes..txt", "v1..2/x", "...", "..hidden", ".hidden", "trailing..", "dots/.../f", "a.b.c.d", "-dash", "sub/-o", "~", "sub/~tilde", "back\\slash", "q?*[glob]", "tab\there", "%41", "CON", "sub/nul"];
     for i in 0..n {
         let nf = 1 + rng.usize_below(6);
         let mut tree: BTreeMap<String, u64> = BTreeMap::new();
@@ -228,9 +230,36 @@ fn check_archive(ctx: &mut Ctx, env: &Env, arch: &str, o: &Opts, expected: &BTre
     }
     compare_dir(&env.sb.join(&x1), None).map_err(|e| (format!("extract-differs:{tag}"), json!({"what": e})))?;
     ctx.count("cmd:extract-all");
+    // the same, into a directory that already holds older (longer) versions of the files
+    let stale = |dir: &Path, only: Option<&String>| {
+        for (name, data) in expected {
+            if only.is_some_and(|o| o != name) {
+                continue;
+            }
+            let p = dir.join(name);
+            if let Some(parent) = p.parent() {
+                let _ = std::fs::create_dir_all(parent);
+            }
+            let mut old = b"OLDER VERSION ".to_vec();
+            old.extend_from_slice(data);
+            old.extend_from_slice(&[0x5a; 77]);
+            let _ = std::fs::write(&p, old);
+        }
+    };
+    stale(&env.sb.join(&x1), None);
+    let r = run(env, &with(&["extract"], &[s("-o"), x1.clone()]));
+    if r.code != Some(0) {
+        return Err((format!("extract-over-older-files-failed:{tag}"), json!({"exit": r.code, "stderr": r.stderr})));
+    }
+    compare_dir(&env.sb.join(&x1), None).map_err(|e| (format!("extract-over-older-files-differs:{tag}"), json!({"what": e})))?;
+    ctx.count("cmd:extract-all-over-older-files");
     // extract, one listed name
     if let Some(name) = expected.keys().nth(rng.usize_below(expected.len().max(1))) {
         let x2 = format!("x2-{}", rng.next());
+        if rng.chance(1, 2) {
+            stale(&env.sb.join(&x2), Some(name));
+            ctx.count("cmd:extract-listed-over-older-file");
+        }
         let r = run(env, &with(&["extract"], &[s("-o"), x2.clone(), name.clone()]));
         if r.code != Some(0) {
             return Err((format!("extract-listed-failed:{tag}"), json!({"exit": r.code, "stderr": r.stderr})));
